@@ -270,7 +270,7 @@ func c02AwaitFollowsCallee(p *Prog) *RuleResult {
 			key := fmt.Sprintf("%s await of a module wrapper call #%d", FuncName(fn), n)
 			var flagOwners []ssa.Value
 			for _, ifi := range controlDepIfs(b) {
-				backSlice(ifi.Cond, func(v ssa.Value) bool {
+				sliceCond(ifi.Cond, func(v ssa.Value) bool {
 					if f, ok := v.(*ssa.FieldAddr); ok && fieldAddrName(f) == "IsAsyncOrHasAsyncDependency" {
 						if meta, ok := f.X.(*ssa.FieldAddr); ok && fieldAddrName(meta) == "Meta" {
 							flagOwners = append(flagOwners, meta.X)
@@ -361,3 +361,250 @@ func deepSlice(v ssa.Value, visit func(ssa.Value) bool) {
 }
 
 var _ = sort.Strings
+
+// ---------------------------------------------------------------------------------------------
+// C12/R8 logical-aliases-reset-trackers.
+//
+// `margin-block-start`, `inset-inline`, `border-start-start-radius`, … set the same sides as the
+// physical longhands the shorthand trackers remember (which side depends on the writing mode). A
+// physical shorthand assembled across such a declaration is emitted on one side of it and flips
+// which of the two wins. The declaration loop must therefore forget a family's tracker whenever it
+// meets another property of the same family: for each tracker there is a whole-array reset that is
+// control dependent on a prefix test of the property name with the family's prefix.
+func c12LogicalAliasesReset(p *Prog) *RuleResult {
+	r := NewRule("C12/R8 logical-aliases-reset-trackers", "every shorthand tracker of the CSS minifier is reset when a declaration of another property of its family (a logical alias such as margin-block-start) is met")
+	ap := p.ByPath[modPath+"/internal/css_ast"]
+	if !r.Anchor("package css_ast", ap != nil) {
+		return r
+	}
+	consts := constsOfType(ap.Types, "D")
+	families := []struct{ shorthand, prefix string }{
+		{"DMargin", "margin-"}, {"DPadding", "padding-"}, {"DInset", "inset-"}, {"DBorderRadius", "border-"},
+	}
+	var host *ssa.Function
+	trackers := map[string]ssa.Value{}
+	for _, fn := range p.ModuleFuncs() {
+		if pkgPathOf(fn) != modPath+"/internal/css_parser" {
+			continue
+		}
+		found := map[string]ssa.Value{}
+		eachInstr(fn, func(b *ssa.BasicBlock, in ssa.Instruction) {
+			c, ok := in.(*ssa.Call)
+			if !ok || c.Call.StaticCallee() == nil || len(c.Call.Args) == 0 {
+				return
+			}
+			name := c.Call.StaticCallee().Name()
+			if name != "mangleSides" && name != "mangleCorners" {
+				return
+			}
+			for _, f := range factsAt(b) {
+				bo, ok := f.Cond.(*ssa.BinOp)
+				if !ok || bo.Op != token.EQL || !f.True {
+					continue
+				}
+				k, ok := constInt(bo.Y)
+				if !ok {
+					continue
+				}
+				for _, fam := range families {
+					if v, ok := consts[fam.shorthand]; ok && v == k {
+						found[fam.shorthand] = c.Call.Args[0]
+					}
+				}
+			}
+		})
+		if len(found) > len(trackers) {
+			host, trackers = fn, found
+		}
+	}
+	if !r.Anchor("the declaration loop that feeds the four shorthand trackers", host != nil && len(trackers) == 4) {
+		return r
+	}
+	for _, fam := range families {
+		r.Instances++
+		key := "tracker of " + strings.TrimPrefix(fam.shorthand, "D") + " is reset on other properties named " + fam.prefix + "*"
+		tr := trackers[fam.shorthand]
+		ok := false
+		eachInstr(host, func(b *ssa.BasicBlock, in ssa.Instruction) {
+			st, isSt := in.(*ssa.Store)
+			if !isSt {
+				return
+			}
+			fa, isFA := st.Addr.(*ssa.FieldAddr)
+			if !isFA || fa.X != tr || !strings.HasPrefix(typeOfFieldAddr(fa), "[4]") {
+				return
+			}
+			if c, isC := st.Val.(*ssa.Const); !isC || c.Value != nil {
+				return
+			}
+			for _, ifi := range controlDepIfsTransitive(b) {
+				sliceCond(ifi.Cond, func(v ssa.Value) bool {
+					if call, isCall := v.(*ssa.Call); isCall && calleeFullName(call) == "strings.HasPrefix" && len(call.Call.Args) == 2 {
+						if s, isS := constString(call.Call.Args[1]); isS && s == fam.prefix {
+							ok = true
+						}
+					}
+					return true
+				})
+			}
+		})
+		if ok {
+			r.OK(key, true, "whole-array reset control dependent on strings.HasPrefix(name, \""+fam.prefix+"\")")
+		} else {
+			r.Fail(key, p.Pos(host.Pos()), "no reset of this tracker depends on the property name starting with \""+fam.prefix+"\": a logical alias of a remembered side (e.g. "+fam.prefix+"block-start) does not stop merging, the physical shorthand is emitted after it and overrides it (or before it and is overridden), flipping the cascade winner")
+		}
+	}
+	r.Floor(4)
+	return r
+}
+
+// ---------------------------------------------------------------------------------------------
+// C02/R7 esm-wrapper-call-awaitable.
+//
+// The converse of R6. Wherever the linker generates a call of the wrapper of a lazily-initialised
+// ES module x (the site is conditional on x.Meta.Wrap == WrapESM) as a statement of another
+// module, the same function must also be able to generate the awaited form, decided by x's async
+// flag: `init_x()` of an async module returns a promise, and a bare call lets the importer's body
+// run before x (and everything x awaits) has finished.
+func c02WrapperCallAwaitable(p *Prog) *RuleResult {
+	r := NewRule("C02/R7 esm-wrapper-call-awaitable", "every generated statement that calls the wrapper of a lazily-initialised ES module has an awaited variant selected by that module's async flag")
+	gp := p.ByPath[modPath+"/internal/graph"]
+	if !r.Anchor("package graph", gp != nil) {
+		return r
+	}
+	wrapESM, ok := constsOfType(gp.Types, "WrapKind")["WrapESM"]
+	if !r.Anchor("graph.WrapESM", ok) {
+		return r
+	}
+	n := 0
+	for _, fn := range p.ModuleFuncs() {
+		if pkgPathOf(fn) != modPath+"/internal/linker" {
+			continue
+		}
+		// owners x for which this function can generate `await wrapper_x()`
+		awaited := []ssa.Value{}
+		eachInstr(fn, func(b *ssa.BasicBlock, in ssa.Instruction) {
+			al, ok := in.(*ssa.Alloc)
+			if !ok || namedTypeName(al.Type()) != "js_ast.EAwait" {
+				return
+			}
+			deepSlice(al, func(v ssa.Value) bool {
+				if f, ok := v.(*ssa.FieldAddr); ok && fieldAddrName(f) == "WrapperRef" {
+					if ast, ok := f.X.(*ssa.FieldAddr); ok && fieldAddrName(ast) == "AST" {
+						awaited = append(awaited, ast.X)
+					}
+				}
+				return true
+			})
+		})
+		k := 0
+		eachInstr(fn, func(b *ssa.BasicBlock, in ssa.Instruction) {
+			al, ok := in.(*ssa.Alloc)
+			if !ok || namedTypeName(al.Type()) != "js_ast.ECall" {
+				return
+			}
+			// the call's target is an identifier for x.AST.WrapperRef
+			var owner ssa.Value
+			if al.Referrers() == nil {
+				return
+			}
+			for _, rf := range *al.Referrers() {
+				fa, ok := rf.(*ssa.FieldAddr)
+				if !ok || fieldAddrName(fa) != "Target" {
+					continue
+				}
+				deepSlice(fa, func(v ssa.Value) bool { return true })
+			}
+			deepSliceField(al, "Target", func(v ssa.Value) bool {
+				if f, ok := v.(*ssa.FieldAddr); ok && fieldAddrName(f) == "WrapperRef" {
+					if ast, ok := f.X.(*ssa.FieldAddr); ok && fieldAddrName(ast) == "AST" {
+						owner = ast.X
+					}
+				}
+				return true
+			})
+			if owner == nil {
+				return
+			}
+			// conditional on owner.Meta.Wrap == WrapESM ?
+			isESM := false
+			for _, f := range factsAt(b) {
+				bo, ok := f.Cond.(*ssa.BinOp)
+				if !ok || bo.Op != token.EQL || !f.True {
+					continue
+				}
+				if kv, ok := constInt(bo.Y); !ok || kv != wrapESM {
+					continue
+				}
+				sliceCond(bo.X, func(v ssa.Value) bool {
+					if wf, ok := v.(*ssa.FieldAddr); ok && fieldAddrName(wf) == "Wrap" {
+						if meta, ok := wf.X.(*ssa.FieldAddr); ok && fieldAddrName(meta) == "Meta" && (meta.X == owner || sameValueOrCell(meta.X, owner)) {
+							isESM = true
+						}
+					}
+					return true
+				})
+			}
+			if !isESM {
+				return
+			}
+			n++
+			k++
+			r.Instances++
+			key := fmt.Sprintf("%s generates a call of an ES module wrapper #%d", FuncName(fn), k)
+			has := false
+			for _, a := range awaited {
+				if a == owner || sameValueOrCell(a, owner) {
+					has = true
+				}
+			}
+			if has {
+				r.OK(key, true, "the function also generates the awaited form for the same module (R6 decides what selects it)")
+			} else {
+				r.Fail(key, p.Pos(al.Pos()), "a call of a lazily-initialised ES module's wrapper is generated as a bare statement and the function has no awaited variant for it: when that module is async (top-level await, directly or through a dependency) the importer's body runs before the module has finished evaluating")
+			}
+		})
+	}
+	if !r.Anchor("generated calls of ES module wrappers in the linker", n >= 2) {
+		return r
+	}
+	r.Floor(2)
+	return r
+}
+
+// deepSliceField slices only what is stored through one field of a freshly allocated node.
+func deepSliceField(al *ssa.Alloc, field string, visit func(ssa.Value) bool) {
+	if al.Referrers() == nil {
+		return
+	}
+	for _, rf := range *al.Referrers() {
+		fa, ok := rf.(*ssa.FieldAddr)
+		if !ok || fieldAddrName(fa) != field {
+			continue
+		}
+		// stores directly to the field and to nested addresses of it
+		var rec func(addr ssa.Value, depth int)
+		rec = func(addr ssa.Value, depth int) {
+			if addr.Referrers() == nil || depth > 20 {
+				return
+			}
+			for _, rr := range *addr.Referrers() {
+				switch x := rr.(type) {
+				case *ssa.Store:
+					if x.Addr == addr {
+						deepSlice(x.Val, visit)
+					}
+				case *ssa.FieldAddr:
+					if x.X == addr {
+						rec(x, depth+1)
+					}
+				case *ssa.IndexAddr:
+					if x.X == addr {
+						rec(x, depth+1)
+					}
+				}
+			}
+		}
+		rec(fa, 0)
+	}
+}
